@@ -89,4 +89,29 @@ PROPS = {
                                  "legacy:single_ORDER": 0.02, "in:disk": 0.1, "out:disk": 0.1}, "shipped": {"shipped_file_checked": 10.0}},
         assumptions=["temp files live under /verif/build/tmp and are unlinked immediately"],
     ),
+    "C15": dict(
+        level="exploration",
+        level_text="For every generated table (1..6 dims, pairwise different axis lengths, orders, extents and periods) ALL permutations are applied for ndim<=5 (40 sampled for ndim 6): every per-dimension attribute must appear in the new order, every coefficient must be found bit for bit at its relocated index, the value at the permuted point must equal the reference sum, and the inverse permutation must restore an equal table; malformed arguments of every kind must be rejected with the table unchanged (deep snapshot), through C++ and the C wrapper.",
+        level_note="Exhaustive only in the permutation, per generated table; tables are sampled.",
+        technique="property-based testing (rapidcheck) with exhaustive enumeration of permutations per table and a relocation oracle",
+        units=[U("c15_permute", "c15_permute.cpp", quick=3000, thorough=300000, names=["permute", "malformed"])],
+        rule="permute: spec generator with distinct axes; all ndim! permutations for ndim<=5, 40 drawn for ndim 6. Non-trivial permutation: not an involution, or ndim>=3 "
+             "(all axis lengths distinct); distinct = hash(spec, permutation). malformed: empty / too short / too long / duplicate / out of range / SIZE_MAX arguments. "
+             "evaluations counts tables; classes count permutations.",
+        essential={"permute": {"non_involution": 5.0, "via_C_wrapper": 1.0}, "malformed": {"malformed:duplicate": 0.05, "malformed:too_long": 0.05, "malformed:size_max": 0.05}},
+        assumptions=["reference evaluation (ref.hpp) for the same-function check"],
+    ),
+    "C16": dict(
+        level="exploration",
+        level_text="Stateful model-based testing: generated histories of up to 40 insertions, overwrites, removals, lookups (C++ and C) and FITS round trips (memory/disk) run against an insertion-ordered map model; the store is compared with the model after every step (order, verbatim values, typed reads, absence) and after every round trip (values modulo trailing blanks, table equality, untouched coefficients). Keys and values are classified into must-accept / must-reject / free zones taken from the documented rules, so the check demands exactly what the property and the documentation state.",
+        level_note="In the free zone (dashes/underscores in short keys, FITS structural keywords, quotes in values) either outcome of write_key is accepted, but an accepted entry is then held to the map and round-trip semantics. Histories are sampled.",
+        technique="stateful model-based property testing (rapidcheck) with an ordered-map reference model",
+        units=[U("c16_aux", "c16_aux.cpp", quick=8000, thorough=1000000, names=["aux_model"])],
+        rule="histories of 3..40 operations over a 45-key alphabet (short, 8/9-char boundary, HIERARCH, reserved and reserved-prefix, lower-case/punctuated, FITS structural "
+             "keywords, over-long key) and values of int (incl. INT_MIN/MAX), double and string type (empty, 1 char, maximal length, one over, blanks, quotes, printable ASCII). "
+             "Non-trivial history: contains an overwrite or a removal that is followed by a round trip; distinct = hash of the operation list.",
+        essential={"aux_model": {"overwrite": 0.5, "remove_present": 0.3, "roundtrip": 1.0, "zone:must_reject": 1.0, "zone:must_accept": 1.0, "value:str_maxlen": 0.3,
+                                 "value:str_overlong": 0.3, "history:edit_then_roundtrip": 0.3}},
+        assumptions=["the documented key rules are those in write_key's error texts and header comments"],
+    ),
 }
